@@ -77,7 +77,7 @@ fn engine_cfg(masks: Vec<u32>, sym_deploy: bool) -> impl Fn() {
     }
 }
 
-const INTERVALS: [u64; 9] = [0, 1, 59, 60, 61, 3600, 604_799, 604_800, 604_801];
+const INTERVALS: [u64; 15] = [0, 1, 59, 60, 61, 3600, 604_799, 604_800, 604_801, (1 << 32) + 59, (1 << 32) + 60, (1 << 32) + 3600, (1 << 33) + 604_800, u64::MAX - 1, u64::MAX];
 
 fn vamm_cfg(masks: Vec<u32>, seed: u64) -> impl Fn() {
     move || {
@@ -196,7 +196,7 @@ pub fn scenarios(seed: u64) -> Vec<Scenario> {
     v.push(sc("C20", Tier::Quick, "c20.ecfg.seq3", de, 1500, 120, engine_cfg(vec![s1, s2, 3], false)));
     v.push(sc("C20", Tier::Quick, "c20.ecfg.deploy", "instantiate-time ratios symbolic over the full range, then one full update", 800, 120, engine_cfg(vec![15], true)));
     v.push(sc("C20", Tier::Thorough, "c20.ecfg.seq3.full", de, 6000, 900, engine_cfg(vec![15, 15, 15], true)));
-    let dv = "vAMM instantiate + UpdateConfig: toll/spread/fluctuation/caps absent or symbolic over the full range, twap interval from the boundary set {0,1,59,60,61,3600,604799,604800,604801}";
+    let dv = "vAMM instantiate + UpdateConfig: toll/spread/fluctuation/caps absent or symbolic over the full range, twap interval from the boundary set {0,1,59,60,61,3600,604799,604800,604801, 2^32+59, 2^32+60, 2^32+3600, 2^33+604800, 2^64-2, 2^64-1}";
     for m in [1u32, 2, 4, 7, 8, 15, 63] {
         v.push(sc("C20", Tier::Quick, &format!("c20.vcfg.m{:02}", m), dv, 400, 60, vamm_cfg(vec![m], seed)));
     }
